@@ -977,4 +977,44 @@ theorem put_other_path_stable (v : V) (p : Path) (x : V) (pre : Bool) (nv prev :
       exact stab_missing_of (ih _ _ _ hc hd)
     · simp only [hkb, if_false, Bool.false_eq_true, getField_nil]; exact Stab.rfl'
 
+/-! ### field order -/
+
+/-- `put_keeps_field_order` (top level, append mode): the key sequence is unchanged or extended by
+    the new key at the end, and every field with another key keeps its position and value. -/
+theorem put_field_order (fs : List (String × V)) (key : String) (rest : Path) (x : V)
+    (fs' : List (String × V)) (prev : V)
+    (h : put (.doc fs) (key :: rest) x false = .ok (.doc fs', prev)) (hx : x.isMissing = false) :
+    (fs'.map Prod.fst = fs.map Prod.fst ∨ fs'.map Prod.fst = fs.map Prod.fst ++ [key]) ∧
+      ∀ (j : Nat) (k : String) (v : V), fs[j]? = some (k, v) → k ≠ key → fs'[j]? = some (k, v) := by
+  have := put_doc_shape fs key rest x false _ _ h
+  cases hi : fieldIndex fs key with
+  | some i =>
+    rw [hi] at this
+    obtain ⟨old, he, hcase⟩ := this
+    rcases hcase with ⟨hm, _⟩ | ⟨nvc, e⟩
+    · rw [hx] at hm; cases hm
+    · injection e with e; subst e
+      constructor
+      · left
+        rw [List.map_set]
+        apply set_self_of_getElem?
+        simp [he]
+      · intro j k v hj hk
+        have hne : i ≠ j := by
+          intro e; subst e; rw [he] at hj; injection hj with hj; injection hj with h1 _; exact hk h1.symm
+        rw [List.getElem?_set_ne hne]; exact hj
+  | none =>
+    rw [hi] at this
+    obtain ⟨_, nvc, e⟩ := this
+    simp only [Bool.false_eq_true, if_false] at e
+    injection e with e; subst e
+    constructor
+    · right; simp
+    · intro j k v hj hk
+      have hlt : j < fs.length := by
+        rcases Nat.lt_or_ge j fs.length with h | h
+        · exact h
+        · rw [List.getElem?_eq_none h] at hj; cases hj
+      rw [List.getElem?_append_left hlt]; exact hj
+
 end Lungo
